@@ -650,3 +650,180 @@ Proof.
   rewrite A, B. destruct H as [H | H]; rewrite H in *; simpl; repeat split; auto;
   destruct (holdsT s i); auto; specialize (C eq_refl); discriminate.
 Qed.
+
+(* ------------------------------------------------------------------ layer 2: every wait has an exit *)
+
+Definition lbl_eqb_simple (a b : lbl) : bool :=
+  match a, b with
+  | LSeeClosed, LSeeClosed | LRecvErr, LRecvErr | LRecvPerr, LRecvPerr => true
+  | LIfClosed x, LIfClosed y | LCasClosed x, LCasClosed y | LReadDbTr x, LReadDbTr y | LIfTrOpen x, LIfTrOpen y => Bool.eqb x y
+  | _, _ => false
+  end.
+Definition has_lbl {P} (l : lbl) (es : list (lbl * P)) : bool := existsb (fun e => lbl_eqb_simple (fst e) l) es.
+
+(* a step that can never block: internal steps, releases by the holder, non-blocking sends *)
+Definition never_blocks (l : lbl) : bool :=
+  match l with
+  | LTau | LBegin _ | LEnd | LCloseChan | LClearMems | LTrySendCmd _ | LCommitOk | LCommitFailW
+  | LRelW | LRelWTr | LWToTr | LUnlockC | LUnlockT | LEnqueue => true
+  | _ => false
+  end.
+(* both outcomes of a test are present *)
+Definition has_test_pair {P} (es : list (lbl * P)) : bool :=
+  (has_lbl (LIfClosed true) es && has_lbl (LIfClosed false) es) ||
+  (has_lbl (LCasClosed true) es && has_lbl (LCasClosed false) es) ||
+  (has_lbl (LReadDbTr true) es && has_lbl (LReadDbTr false) es) ||
+  (has_lbl (LIfTrOpen true) es && has_lbl (LIfTrOpen false) es).
+
+Inductive wait_class := WNone    (* not a wait: some edge never blocks *)
+                      | WClose   (* a select that lists closeC *)
+                      | WPartner (* an unconditional operation: the partner is guaranteed by an invariant *)
+                      | WFinal.  (* no edge: the process has ended *)
+Definition classify {P} (es : list (lbl * P)) : wait_class :=
+  match es with
+  | [] => WFinal
+  | _ => if existsb (fun e => never_blocks (fst e)) es || has_test_pair es then WNone
+         else if has_lbl LSeeClosed es then WClose else WPartner
+  end.
+
+(* the unconditional blocking operations of the clients, each with the reason why it cannot block for ever:
+   W2        <-writeMergedC      the lock holder answers every merge request it received (LMergedTrue / LGiveW)
+   W3        <-writeAckC         the lock holder acknowledges every merged writer in unlockWrite (LAckOne)
+   WMs       writeMergedC<-true  the requester is waiting in W2
+   WU        unlockWrite         writeAckC<- / writeMergedC<-false: the partners wait in W3 / W2; else a release
+   LB1 CM1 DC0 TP1   tr.lk.Lock()       a mutex: its holders never wait for the write lock or tr.lk
+   CM4       compCommitLk.Lock() a mutex: its holders only wait with closeC / error exits
+   CL4       Close: writeLockC<- every holder of the write lock releases it once closeC is closed
+   CL5       closeW.Wait()       both compaction goroutines leave at closeC *)
+Definition client_unconditional (pc : cpc) : bool :=
+  match pc with
+  | W2 | W3 | WMs _ | WU _ | LB1 | CM1 _ | DC0 _ | TP1 | CM4 _ | CL4 | CL5 => true
+  | _ => false
+  end.
+Definition m_unconditional (pc : mpc) : bool := match pc with MC _ | MAck | MX => true | _ => false end.
+Definition t_unconditional (pc : tpc) : bool := match pc with TC _ | TQ _ | TAx _ | TX => true | _ => false end.
+
+Lemma client_waits : forall pc,
+  match classify (cedges fixed pc) with
+  | WPartner | WFinal => client_unconditional pc = true
+  | _ => client_unconditional pc = false
+  end.
+Proof. intro pc; destruct pc; dparams; reflexivity. Qed.
+Lemma m_waits : forall pc,
+  match classify (medges pc) with
+  | WPartner => m_unconditional pc = true | WFinal => pc = MDone | _ => m_unconditional pc = false end.
+Proof. intro pc; destruct pc; dparams; reflexivity. Qed.
+Lemma t_waits : forall pc,
+  match classify (tedges pc) with
+  | WPartner => t_unconditional pc = true | WFinal => pc = TDone | _ => t_unconditional pc = false end.
+Proof. intro pc; destruct pc; dparams; reflexivity. Qed.
+
+(* waits for background work list compErrC; waits for the write lock list compPerErrC (Close excepted) *)
+Definition has_send_cmd {P} (es : list (lbl * P)) : bool :=
+  existsb (fun e => match fst e with LSendCmd _ _ => true | _ => false end) es.
+Definition has_acq {P} (es : list (lbl * P)) : bool :=
+  existsb (fun e => match fst e with LAcqW | LAcqWRO => true | _ => false end) es.
+Definition is_trigw_pc (pc : cpc) : bool := match pc with TrigW _ _ => true | _ => false end.
+
+Lemma error_exits : forall pc,
+  let es := cedges fixed pc in
+  (has_send_cmd es || is_trigw_pc pc = true -> has_lbl LRecvErr es && has_lbl LSeeClosed es = true) /\
+  (has_acq es = true -> has_lbl LRecvPerr es && has_lbl LSeeClosed es = true).
+Proof. intro pc; destruct pc; dparams; simpl; split; intro; try discriminate; reflexivity. Qed.
+
+(* ------------------------------------------------------------------ the code before the repairs: leaks *)
+
+Definition unfixed_D4a := {| fixD4a := false; fixD4b := true; fixD4c := true; fixD7 := true; fixD8 := true |}.
+Definition unfixed_D4b := {| fixD4a := true; fixD4b := false; fixD4c := true; fixD7 := true; fixD8 := true |}.
+Definition unfixed_D4c := {| fixD4a := true; fixD4b := true; fixD4c := false; fixD7 := true; fixD8 := true |}.
+Definition unfixed_D7 := {| fixD4a := true; fixD4b := true; fixD4c := true; fixD7 := false; fixD8 := true |}.
+Definition unfixed_D8 := {| fixD4a := true; fixD4b := true; fixD4c := true; fixD7 := true; fixD8 := false |}.
+
+(* a user transaction: OpenTransaction succeeds, Commit's three attempts fail, Commit returns *)
+Definition trace_D4a : list action :=
+  [ACli 0 4 0; ACli 0 1 0; ACli 0 0 0; ACli 0 2 0; ACli 0 1 0; ACli 0 0 0; ACli 0 0 0;
+   ACli 0 0 0; ACli 0 1 0; ACli 0 0 0; ACli 0 1 0; ACli 0 1 0; ACli 0 0 0;
+   ACli 0 1 0; ACli 0 0 0; ACli 0 1 0; ACli 0 0 0; ACli 0 1 0; ACli 0 0 0; ACli 0 0 0; ACli 0 0 0; ACli 0 0 0].
+(* DB.Write of a batch larger than the write buffer: internal transaction, Commit fails, Write returns *)
+Definition trace_D4b : list action :=
+  [ACli 0 2 0; ACli 0 2 0; ACli 0 0 0; ACli 0 1 0; ACli 0 0 0; ACli 0 2 0; ACli 0 1 0; ACli 0 0 0; ACli 0 0 0;
+   ACli 0 0 0; ACli 0 0 0; ACli 0 0 0; ACli 0 0 0;
+   ACli 0 1 0; ACli 0 0 0; ACli 0 1 0; ACli 0 1 0; ACli 0 0 0;
+   ACli 0 1 0; ACli 0 0 0; ACli 0 1 0; ACli 0 0 0; ACli 0 1 0; ACli 0 0 0; ACli 0 0 0; ACli 0 0 0; ACli 0 0 0; ACli 0 0 0].
+(* OpenTransaction takes the write lock, starts the memdb flush; Close (client 1) closes closeC; the wait fails *)
+Definition trace_D4c : list action :=
+  [ACli 0 4 0; ACli 0 1 0; ACli 0 0 0; ACli 0 0 0; ACli 1 7 0; ACli 1 0 0; ACli 1 0 0; ACli 1 0 0;
+   ACli 0 2 0; ACli 0 0 0; ACli 0 0 0].
+(* a Put rotates the memdb; mCompaction flushes it; the commit's manifest write fails once *)
+Definition trace_D7 : list action :=
+  [ACli 0 0 0; ACli 0 1 0; ACli 0 0 0; ACli 0 2 0; AT 1; AT 0; AT 1; ACli 0 0 0;
+   AM 1; AM 0; AM 1; AM 0; AM 0; AM 0; AM 1; AM 2; AM 0; AM 1].
+(* SetReadOnly (client 0) takes the write lock; Close (client 1) closes closeC; compactionError leaves;
+   SetReadOnly returns ErrClosed *)
+Definition trace_D8 : list action :=
+  [ACli 0 6 0; ACli 0 1 0; ACli 0 0 0; ACli 1 7 0; ACli 1 0 0; ACli 1 0 0; ACli 1 0 0; ACli 1 1 0; ACE 1;
+   ACli 0 2 0; ACli 0 0 0].
+
+Definition summary (o : option state) :=
+  match o with Some s => Some (wl s, cl s, trown s, cli s 0, cli s 1) | None => None end.
+
+(* D4a: Commit has returned (the client is back at IdleTr) and compCommitLk is still locked by it *)
+Example commit_leaks_refuted :
+  summary (run unfixed_D4a init trace_D4a) = Some (WTr, Some (PCli 0), Some 0, IdleTr, Idle) /\
+  summary (run fixed init trace_D4a) = Some (WTr, None, Some 0, IdleTr, Idle).
+Proof. split; vm_compute; reflexivity. Qed.
+
+(* D4b: Write has returned (client Idle, nobody has the handle) and the transaction still owns the write lock;
+   the repaired code is discarding the transaction at this point *)
+Example write_large_leaks_refuted :
+  summary (run unfixed_D4b init trace_D4b) = Some (WTr, None, Some 0, Idle, Idle) /\
+  summary (run fixed init trace_D4b) = Some (WTr, None, Some 0, DC0 XLB, Idle).
+Proof. split; vm_compute; reflexivity. Qed.
+
+(* D4c: OpenTransaction has returned an error and the client still holds the write lock;
+   on the same schedule the repaired code has released it *)
+Example open_transaction_leaks_refuted :
+  summary (run unfixed_D4c init trace_D4c) = Some (WHeld (PCli 0), None, None, Idle, CL3) /\
+  summary (run fixed init trace_D4c) = Some (WFree, None, None, Idle, CL3).
+Proof. split; vm_compute; reflexivity. Qed.
+
+(* D7: after one failed manifest write the commit can never succeed again (the writer is poisoned), while
+   mCompaction keeps compCommitLk; the repaired code's next attempt succeeds *)
+Example commit_retry_leaks_refuted :
+  (match run unfixed_D7 init trace_D7 with
+   | Some s => (cl s, mc s, poisoned s, summary (step unfixed_D7 s (AM 0)))
+   | None => (None, M0, false, None) end) = (Some PM, MD1 true, true, None) /\
+  (match run fixed init trace_D7 with
+   | Some s => match step fixed s (AM 0) with Some s' => Some (mc s') | None => None end
+   | None => None end) = Some (MDs true EOk).
+Proof. split; vm_compute; reflexivity. Qed.
+
+Lemma poisoned_sticks_unfixed : forall s a s',
+  poisoned s = true -> step unfixed_D7 s a = Some s' -> poisoned s' = true.
+Proof.
+  assert (D : forall b ok w s, poisoned (deliver b ok w s) = poisoned s).
+  { intros b ok [i n] s; unfold deliver. destruct (is_trigw b (cli s i) && Nat.eqb (ctk s i) n); reflexivity. }
+  assert (L : forall p l arg s s', poisoned s = true -> lsem unfixed_D7 p l arg s = Some s' -> poisoned s' = true).
+  { intros p l arg s s' P H. destruct l; simpl in H; unfold guard in H;
+      repeat match type of H with
+      | context[match ?x with _ => _ end] => destruct x eqn:?
+      end; try discriminate; inversion H; subst; simpl; rewrite ?D; auto. }
+  intros s a s' P H. destruct a; simpl in H.
+  - destruct (nth_error (cedges unfixed_D7 (cli s i)) k) as [[l pc']|]; try discriminate.
+    destruct (lsem unfixed_D7 (PCli i) l arg s) eqn:E; try discriminate. inversion H; subst. simpl. eauto.
+  - destruct (nth_error (medges (mc s)) k) as [[l pc']|]; try discriminate.
+    destruct (lsem unfixed_D7 PM l 0 s) eqn:E; try discriminate. inversion H; subst. simpl. eauto.
+  - destruct (nth_error (tedges (tc s)) k) as [[l pc']|]; try discriminate.
+    destruct (lsem unfixed_D7 PT l 0 s) eqn:E; try discriminate. inversion H; subst. simpl. eauto.
+  - unfold step_ce, guard in H.
+    repeat match type of H with context[match ?x with _ => _ end] => destruct x eqn:? end;
+      try discriminate; inversion H; subst; simpl; auto.
+Qed.
+
+(* D8: SetReadOnly has returned ErrClosed with the write lock, compactionError is gone, Close waits for ever *)
+Example set_read_only_leaks_refuted :
+  (match run unfixed_D8 init trace_D8 with
+   | Some s => (wl s, cli s 0, cli s 1, ce s, summary (step unfixed_D8 s (ACli 1 0 0)))
+   | None => (WFree, Idle, Idle, E_no, None) end) = (WHeld (PCli 0), Idle, CL4, E_done, None) /\
+  summary (run fixed init trace_D8) = Some (WFree, None, None, Ret, CL4).
+Proof. split; vm_compute; reflexivity. Qed.
